@@ -713,12 +713,12 @@ Proof.
 Qed.
 
 (* OptimizeLikePatterns keeps the Kleene value of EVERY clause on every row *)
-Lemma optimize_sound : forall r cl tail, eval_clause r (optimize cl tail) = eval_clause r cl.
+Lemma optimize_sound : forall r cl tail wrap, eval_clause r (optimize cl tail wrap) = eval_clause r cl.
 Proof.
-  intros r cl tail. unfold optimize.
-  destruct (containsb (B "LIKE") (upperb (print_query cl tail))); [|reflexivity].
-  rewrite opt2_sound. apply opt1_sound.
+  intros r cl tail wrap. unfold optimize.
+  destruct (containsb (B "LIKE") (upperb (print_query cl tail wrap))); [|reflexivity].
+  destruct wrap; [rewrite opt2_sound|]; apply opt1_sound.
 Qed.
 
-Lemma keeps_sound : forall r cl tail, keeps r (optimize cl tail) = keeps r cl.
+Lemma keeps_sound : forall r cl tail wrap, keeps r (optimize cl tail wrap) = keeps r cl.
 Proof. intros. unfold keeps. rewrite optimize_sound. reflexivity. Qed.
